@@ -88,7 +88,7 @@ pub fn gen_plan(property: &str, seed: u64, index: u64, tier: Tier) -> Plan {
                 scenario = "middlegame";
             }
             knobs.insert("depth".into(), depth as i64);
-            knobs.insert("iterations".into(), if big { if thorough { 6 } else { 3 } } else if thorough { 40 } else { 10 });
+            knobs.insert("iterations".into(), if big { if thorough { 6 } else { 3 } } else if thorough { if depth >= 5 { 8 } else { 40 } } else { 10 });
             // initial cache contents: empty, or warmed by 0..3 earlier searches run sequentially
             let warm = if big { 2 } else { rng.below(4) };
             let mut pos = start.clone();
@@ -168,6 +168,7 @@ fn workload(plan: &Plan, workers: usize, steal: usize) -> Answer {
         } else {
             verif_simpool::configure(1, 0);
         }
+        crate::watchdog_touch();
         match op {
             Op::Make(k) => {
                 let legal = pos.legal_moves();
@@ -410,6 +411,7 @@ pub fn exec(plan: &Plan) -> Outcome {
         let sigs = sigs.clone();
         let switches = switches.clone();
         move || {
+            crate::watchdog_touch();
             let got = workload(&p, workers, steal);
             evals.fetch_add(1, Ordering::SeqCst);
             if p.property == "C12" {
